@@ -58,6 +58,8 @@ impl<'a> HeaderParser<'a> {
         let mut signals: Vec<String> = vec![];
         let mut spans: Vec<logos::Span> = vec![];
         loop {
+            #[cfg(feature = "verif-hooks")]
+            crate::verif_hooks::tick();
             match self.iter.next() {
                 Some(Ok(HeaderTokenKind::SignalName)) => {
                     let name = self.iter.slice().into();
@@ -187,6 +189,8 @@ impl<'a> Parser<'a> {
             .map(|(k, v)| (k.to_string(), v))
             .collect::<Vec<_>>();
 
+        #[cfg(feature = "verif-hooks")]
+        crate::verif_hooks::permute_drained(0, &mut expected_inputs, |(_, span)| span.start);
         expected_inputs.sort_by(|(_, a), (_, b)| a.start.cmp(&b.start));
 
         let mut read_outputs = self
@@ -195,6 +199,8 @@ impl<'a> Parser<'a> {
             .map(|(k, v)| (k.to_string(), v))
             .collect::<Vec<_>>();
 
+        #[cfg(feature = "verif-hooks")]
+        crate::verif_hooks::permute_drained(1, &mut read_outputs, |(_, span)| span.start);
         read_outputs.sort_by(|(_, a), (_, b)| a.start.cmp(&b.start));
 
         let mut virtual_signals = self
@@ -211,6 +217,8 @@ impl<'a> Parser<'a> {
             })
             .collect::<Vec<_>>();
 
+        #[cfg(feature = "verif-hooks")]
+        crate::verif_hooks::permute_drained(2, &mut virtual_signals, |(_, span)| span.start);
         virtual_signals.sort_by(|(_, a), (_, b)| a.start.cmp(&b.start));
 
         ParseResult {
